@@ -193,6 +193,13 @@ def _array_attr(ctx, o, c, name):
         def astype(cx, a, k, _o=o):
             items = cx.cell(_o).items
             t = a[0] if a else k.get("dtype")
+            if isinstance(t, Ext) and isinstance(t.obj, np.dtype):
+                # astype(dtype object): the same cast as with the scalar type; fixed-width integer types wrap around
+                d = t.obj
+                if d.kind in "iu":
+                    return _mk_array(cx, list(items), "int", ops.fixed_width(d))
+                if d.kind == "f":
+                    return _mk_array(cx, list(items), "float")
             if isinstance(t, Ext) and t.obj in (float, np.float64, np.float32):
                 return _mk_array(cx, list(items), "float")   # a new array (copy), as numpy does by default
             if isinstance(t, Ext) and t.obj in (int, np.int64, np.int32):
@@ -1862,6 +1869,26 @@ def m_argsort(ctx, args, kw):
     return _mk_array(ctx, order)
 
 
+_F64 = z3.Function("to_f64", z3.IntSort(), z3.RealSort())
+
+
+def _promote_f64(ctx, items):
+    out = []
+    for x in items:
+        if isinstance(x, Sym) and x.k == "int":
+            r = _F64(x.t)
+            xr = z3.ToReal(x.t)
+            ax = z3.If(xr >= 0, xr, -xr)
+            ctx.assume(z3.Implies(ax <= 2 ** 53, r == xr))
+            ctx.assume(z3.And(r - xr <= ax / 2 ** 53, xr - r <= ax / 2 ** 53))
+            out.append(ops.mk(r, "real"))
+        elif isinstance(x, int) and not isinstance(x, bool):
+            out.append(float(x))
+        else:
+            out.append(x)
+    return out
+
+
 @model(np.append)
 def m_np_append(ctx, args, kw):
     src = _arr_like(ctx, args[0])
@@ -1871,7 +1898,11 @@ def m_np_append(ctx, args, kw):
         one = args[1]
         kind = src[1]
         if kind == "int" and (isinstance(one, float) or (isinstance(one, Sym) and one.k == "real")):
+            # integer array and a float: numpy promotes the WHOLE array to float64 -- the stored integers make a round trip through
+            # binary64, which is exact only up to 2**53 in magnitude (rounded to 53 significant bits beyond)
+            ctx.assumed.add("int -> float64 promotion of an integer array: exact for |x| <= 2**53, relative error <= 2**-53 beyond (uninterpreted rounding)")
             kind, npd = "float", None
+            src = (_promote_f64(ctx, src[0]), src[1], src[2])
         else:
             npd = src[2]
         return _mk_array(ctx, src[0] + [one], kind, npd)
